@@ -1639,7 +1639,9 @@ static void CodeBINCLUDE(Word Index) {
                     ChkIO(ErrNum_FileReadError);
                     CodeLen = (RLen + Gran - 1) / Gran;
                     memset(BAsmCode + RLen, 0, CodeLen * Gran - RLen);
-                    WriteBytes();
+                    if (CodeOutput) {
+                        WriteBytes();
+                    }
                     PCs[ActPC] += CodeLen;
                     Rest -= RLen;
                 } while ((Rest != 0) && (RLen == Curr));
